@@ -542,25 +542,40 @@ func (s *SetOperation) Format(opts FormatOptions) string {
 	f := newFormatter(opts)
 	sb := f.sb
 
-	if s.Left != nil {
-		if ls, ok := s.Left.(Formatter); ok {
-			sb.WriteString(ls.Format(opts))
+	// A op B op C ... is left-deep; the left spine is unrolled so that every operand is
+	// written into the buffer once.
+	spine := []*SetOperation{s}
+	for {
+		l, ok := spine[len(spine)-1].Left.(*SetOperation)
+		if !ok || l == nil {
+			break
+		}
+		spine = append(spine, l)
+	}
+	writeOperand := func(st Statement) {
+		if st == nil {
+			return
+		}
+		if fs, ok := st.(Formatter); ok {
+			sb.WriteString(fs.Format(opts))
 		} else {
-			sb.WriteString(stmtSQL(s.Left))
+			sb.WriteString(stmtSQL(st))
 		}
 	}
-	sb.WriteString(f.clauseSep())
-	op := s.Operator
-	if s.All {
-		op += " ALL"
-	}
-	sb.WriteString(f.kw(op))
-	sb.WriteString(f.clauseSep())
-	if s.Right != nil {
-		if rs, ok := s.Right.(Formatter); ok {
-			sb.WriteString(rs.Format(opts))
-		} else {
-			sb.WriteString(stmtSQL(s.Right))
+	writeOperand(spine[len(spine)-1].Left)
+	for i := len(spine) - 1; i >= 0; i-- {
+		n := spine[i]
+		sb.WriteString(f.clauseSep())
+		op := n.Operator
+		if n.All {
+			op += " ALL"
+		}
+		sb.WriteString(f.kw(op))
+		sb.WriteString(f.clauseSep())
+		writeOperand(n.Right)
+		if opts.AddSemicolon && i > 0 {
+			// each nested set operation used to be formatted as a statement of its own
+			sb.WriteString(";")
 		}
 	}
 
